@@ -168,7 +168,7 @@ def ks_op(rng, n, p=0.3):
 
 
 # ---- long inputs: one call of several hundred blocks (length counters crossing 2^8 / 2^9; thorough: 2^16) ----
-LONG_N = [255, 256, 257, 300, 511, 513]
+LONG_N = [63, 64, 65, 127, 128, 129, 255, 256, 257, 300, 511, 512, 513]
 LONG_N_THOROUGH = [1023, 1025, 4097, 65537]
 
 
